@@ -10,6 +10,7 @@ import copy
 
 from dsim.kernel import K, Deadlock, BudgetExceeded
 from . import rulelib as RL
+from dsim import depth as DP
 
 PROPERTY = "C12"
 SRC_DIR = None
@@ -127,7 +128,7 @@ def generate(cls, rng):
     else:
         target = RL.gen_set(rng, cache=False, member_cache_p=0.3)
     ops = []
-    n = rng.randrange(3, 30)
+    n = rng.randrange(3, DP.pick(30, 90))
     is_rule = target.get("kind") != "set"
     # process-wide configuration the rule constructor reads when no week
     # start is given: calendar.firstweekday(); changed by events in the
